@@ -49,7 +49,7 @@ TECHNIQUE = "runtime monitoring: per-task state model (runnable/paused/waiting/d
 RULE = ("random cases: <= 8 iterator programs (steps: value / Deferred [unfired | fired-but-chained-to-pending | fired-and-paused | "
         "already delivered] / raise, then exhaustion; optional operation executed "
         "from inside next()), termination predicate after u in {1,2,3,inf} work units, started flag, and 10-70 operations: "
-        "add (cooperate/coiterate), tick, pause, resume, stop, fire the k-th outstanding Deferred ok/failed, whenDone with an "
+        "add (cooperate/coiterate), tick, pause, resume, unmatched resume on a waiting task, stop, fire the k-th outstanding Deferred ok/failed, whenDone with an "
         "optional operation run from its callback, Cooperator.stop()/start(); then a drain phase.  Distinct = the whole case; "
         "non-trivial = >= 2 tasks advanced and at least one pause/stop/Deferred wait/cooperator stop took effect.")
 ASSUMPTIONS = ["trusted base: the per-task model in this module; Deferred (properties C01-C07) delivers callbacks",
